@@ -80,6 +80,13 @@ pub fn matrix_configs(thorough: bool) -> Vec<EpCfg> {
                         let mut s = matrix_stimuli(Ver::V4, 2);
                         s.extend(matrix_stimuli(Ver::V5, 2).into_iter().filter(|x| x.0 == "CONNECT" || x.0 == "AUTH").map(|x| (format!("v5 {}", x.0), x.1)));
                         // other protocol levels
+                        // a CONNECT of a supported level that the parser of that level turns down (reserved Connect Flags
+                        // bit set): answered in that version's format, and the version is fixed from then on
+                        for (name, vv) in [("v3.1.1", Ver::V4), ("v5.0", Ver::V5)] {
+                            let mut c = rc::encode(&ConnProf::basic(true).ap(vv), 2);
+                            c[9] |= 0x01;
+                            s.push((format!("CONNECT {name} with the reserved flag bit"), c));
+                        }
                         // (every value of the Protocol Level byte, on a v3.1.1-shaped and on a v5.0-shaped CONNECT)
                         for lvl in 0..=255u8 {
                             if lvl == 4 || lvl == 5 {
